@@ -462,7 +462,7 @@ class Exec:
                     q.heap[v.oid] = {'len': L, 'log': [], 'havocked': True}
                     q.pc = q.pc + [L >= 0]
             for nme in assigned:
-                if nme in spec.shapes: q.env[nme] = self.fresh_value(q, spec.shapes[nme], nme)
+                if ROLE_REV.get(nme, nme) in spec.shapes: q.env[nme] = self.fresh_value(q, spec.shapes[ROLE_REV.get(nme, nme)], nme)
                 elif nme in q.env and not isinstance(q.env[nme], (VFunc, VClass)):
                     sh = shape_of(q.env[nme])
                     q.env[nme] = self.fresh_value(q, sh, nme) if sh != 'unk' else VUnk(nme)
@@ -1576,13 +1576,78 @@ class Closure:
     def __init__(self, env, parent): self.env, self.parent = env, parent
 
 
+ROLE_ALIASES = {}       # contract's name of a loop variable -> its spelling in the source under verification (identity unless renamed)
+ROLE_REV = {}
+
+
+def own_for_loops(fn):
+    """the function's own `for` statements in source order (not those of nested functions)"""
+    out = []
+    def walk(stmts):
+        for st in stmts:
+            if isinstance(st, (ast.FunctionDef, ast.ClassDef)): continue
+            if isinstance(st, ast.For): out.append(st)
+            for f in ('body', 'orelse', 'finalbody'):
+                if hasattr(st, f): walk(getattr(st, f))
+            for h in getattr(st, 'handlers', []): walk(h.body)
+    walk(fn.body)
+    return out
+
+
+def _stores(stmts, skip_defs=True):
+    names = []
+    def walk(n):
+        if skip_defs and isinstance(n, (ast.FunctionDef, ast.Lambda, ast.ClassDef)): return
+        if isinstance(n, ast.Name) and isinstance(n.ctx, ast.Store) and n.id not in names: names.append(n.id)
+        for c in ast.iter_child_nodes(n): walk(c)
+    for st in stmts: walk(st)
+    return names
+
+
+def set_role_aliases(fn, loopspecs):
+    """see LoopSpec.roles"""
+    ROLE_ALIASES.clear(); ROLE_REV.clear()
+    loops = own_for_loops(fn)
+    for l in loopspecs:
+        if not l.roles or l.pos is None or l.pos >= len(loops): continue
+        lp = loops[l.pos]
+        before = []
+        def pre(stmts):
+            for st in stmts:
+                if st is lp: return True
+                if isinstance(st, (ast.FunctionDef, ast.ClassDef)): continue
+                if any(x is lp for x in ast.walk(st)):
+                    for f in ('body', 'orelse', 'finalbody'):
+                        if hasattr(st, f) and pre(getattr(st, f)): return True
+                    return True
+                for nme in _stores([st]):
+                    if nme not in before: before.append(nme)
+            return False
+        pre(fn.body)
+        tnames = [x.id for x in ast.walk(lp.target) if isinstance(x, ast.Name)]
+        inside = _stores(lp.body)
+        carried = [n for n in before if n in inside and n not in tnames]
+        local = [n for n in inside if n not in before and n not in tnames]
+        appended = [n for n in _appended_names(lp) if n in before]
+        for roles, actual in ((l.roles.get('carried', []), carried), (l.roles.get('local', []), local), (l.roles.get('appended', []), appended)):
+            if len(roles) == len(actual):
+                present = set(_stores(fn.body, skip_defs=False)) | {x.arg for x in fn.args.args}
+                for r, a in zip(roles, actual):
+                    # an alias only for a genuine rename: the contract's name does not occur in the function at all, and the actual
+                    # name is not another role's name (a mere re-ordering of initialisations keeps the names and needs no alias)
+                    if r != a and r not in present and a not in roles: ROLE_ALIASES[r] = a; ROLE_REV[a] = r
+
+
 class Namespace:
     """read access to variables for contract code (args / loop state)"""
     def __init__(self, env, path): self.__dict__['_env'] = env; self.__dict__['_path'] = path
     def __getattr__(self, n):
         try: return self._env[n]
-        except KeyError: raise AttributeError(n)
-    def has(self, n): return n in self._env
+        except KeyError:
+            a = ROLE_ALIASES.get(n)
+            if a is not None and a in self._env: return self._env[a]
+            raise AttributeError(n)
+    def has(self, n): return n in self._env or ROLE_ALIASES.get(n) in self._env
 
 
 class Frame:
@@ -1602,7 +1667,8 @@ class Frame:
     def loop_spec(self, st, hdr):
         if self.contract is None: return None
         ordn = [id(n) for n in self._loops[hdr]].index(id(st))
-        return self.contract.loop(hdr, ordn)
+        own = [id(n) for n in own_for_loops(self.fn)]
+        return self.contract.loop(hdr, ordn, own.index(id(st)) if id(st) in own else None)
 
 
 def coalesce(alts):
